@@ -440,6 +440,52 @@ func runC20(c *Ctx) {
 		}
 	}()
 
+	// ---- C20.remfix
+	rule = "C20.remfix"
+	c.R.Rule(rule, "unit consistency of floor corrections in package proto: when a remainder r = a % d is adjusted (r + k, typically under `r < 0` together with a decrement of the quotient) the amount added is the modulus d itself (the same value or the same constant); adding another quantity (the tick length instead of the ticks per second) moves every negative value with a fraction to a wrong instant")
+	func() {
+		n := 0
+		for _, fn := range p.Funcs() {
+			if pkgOf(fn) == nil || pkgOf(fn).Path() != core.PkgProto {
+				continue
+			}
+			for _, b := range fn.Blocks {
+				for _, in := range b.Instrs {
+					rem, ok := in.(*ssa.BinOp)
+					if !ok || rem.Op != token.REM || rem.Referrers() == nil {
+						continue
+					}
+					for _, ref := range *rem.Referrers() {
+						add, ok := ref.(*ssa.BinOp)
+						if !ok || add.Op != token.ADD {
+							continue
+						}
+						k := add.Y
+						if k == ssa.Value(rem) {
+							k = add.X
+						}
+						n++
+						key := sprintf("%s/remfix#%d", core.FuncName(fn), n)
+						same := k == rem.Y
+						if kc, ok1 := core.ConstInt(k); ok1 {
+							if dc, ok2 := core.ConstInt(rem.Y); ok2 && kc == dc {
+								same = true
+							}
+						}
+						if same {
+							c.R.Ok(rule, key, cfg, p.Pos(add.Pos()), "remainder corrected by its modulus")
+						} else {
+							c.R.Bad(rule, key, cfg, p.Pos(add.Pos()), "a remainder is corrected by adding something other than the modulus it was taken by: quotient and remainder no longer describe the same value (off by a factor between the two units)")
+						}
+					}
+				}
+			}
+		}
+		if n == 0 {
+			c.R.Ok(rule, "proto", cfg, "", "no remainder is adjusted additively in package proto").Trivial = true
+		}
+	}()
+
 	// ---- C20.scale
 	rule = "C20.scale"
 	c.R.Rule(rule, "Precision.Scale() is the tick length in nanoseconds, 10^(9-p): recognised as (a) the accumulation loop d = 1; for i = 9; i > p; i-- { d *= 10 } - initial value 1, factor 10, counter from 9 down to p exclusive - or (b) a lookup in a package-level table whose literal is folded and compared entry by entry with 10^(9-i), i = 0..9; any other form is undecided")
